@@ -690,7 +690,7 @@ def uio_case(ctx, case):
                      spec=[seen, [seen.index(i) for i in ids]])
     if ctx.model_ok:
         mo = ctx.model([[113, ids]])[0]
-        if mo != obs:
+        if mo[:2] != obs or mo[2:] != obs:
             ctx.disagree(sig + 'symptom=tie', case, obs, mo, 'unique_in_order differs from the Coq model', kind='tie')
 
 
@@ -723,9 +723,10 @@ def run_uio(ctx, cases):
             except Exception:
                 continue
             obs = [[V.vid(ComparableArrayWrapper.unwrap(x)) for x in u2], [int(i) for i in inv]]
-            if o != obs:
+            if o[:2] != obs or o[2:] != obs:
                 ctx.disagree('kind=%s;op=unique_in_order;symptom=tie' % c['uio'], c, obs, o,
-                             'unique_in_order differs from the Coq model', kind='tie')
+                             'unique_in_order differs from the Coq model (first occurrences / literal token loop)',
+                             kind='tie')
         ctx.note_case(('uio', c['uio'], tuple(c['values'])), nontrivial=len(set(c['values'])) < len(c['values']),
                       sample=None)
 
